@@ -270,6 +270,11 @@ def run_case(res, case, tmpdir):
         from pydicom import uid
         ts = uid.UID(TS[case.get('ts', 'implicit')])
         accepted = {ctx: asceprovider.PContextDef(ctx, uid.UID(sop_class), ts)}
+        if (case['nfrag'] + len(case['comp'])) % 3 == 0:
+            # the message travels on the context of a Meta SOP Class: the context's abstract syntax
+            # is not the SOP class of the message (which is the one configured for file storage)
+            accepted = {ctx: asceprovider.PContextDef(ctx, uid.UID('1.2.840.10008.5.1.1.9'), ts)}
+            res.count('sim.meta-sop-class-context')
         store_in_file = frozenset([sop_class])
         if case['kind'] == 'tempfile':
             # one entity for all cases of the process: it serves many associations in its life, with
@@ -451,7 +456,18 @@ def across_release(res, case, where, raws, name, command, data, ctx, role, prefi
         script.append(('user', F.user_primitive('uRELRQ')[0]))
         for raw in raws[cut:]:
             script.append(('bytes', raw))
-        sim = simnet.Sim(role, script)
+        kwargs = {}
+        sop = R.parse_command_set(command).get(R.TAG_AFFECTED_SOP_CLASS)
+        file_backed = name == 'CStoreRQMessage' and data is not None and sop and cut % 2 == 1
+        if file_backed:
+            # the data set of this message is received into a file
+            from pynetdicom2 import applicationentity, asceprovider
+            from pydicom import uid
+            kwargs = {'store_in_file': {sop}, 'get_file_cb': applicationentity.ClientAE('C07').get_file,
+                      'accepted_contexts': {ctx: asceprovider.PContextDef(ctx, uid.UID(sop),
+                                                                          uid.ImplicitVRLittleEndian)}}
+            res.count('oracle.file-backed-across-release-request')
+        sim = simnet.Sim(role, script, **kwargs)
         sim.run()
         if sim.outcome != 'end-of-script':
             res.violation('provider-run-failed', 'C07.provider', '%s, release requested after PDU %d: run() '
@@ -464,6 +480,20 @@ def across_release(res, case, where, raws, name, command, data, ctx, role, prefi
                           'indications %r' % (where, cut, len(raws), len(items), sim.state() + 1,
                                               [i[0] for i in sim.indications]), case)
             return
+        if file_backed:
+            ds = items[0][0].data_set
+            try:
+                ds.seek(0)
+                whole = ds.read()
+                ok = whole.endswith(data) and whole[128:132] == b'DICM'
+            except Exception as exc:
+                ok, whole = False, repr(exc).encode()
+            if not ok:
+                res.violation('stored-file-content-differs', 'C07.file',
+                              '%s: release requested after PDU %d: the file handed over does not hold the '
+                              'transmitted data set (%r)' % (where, cut, whole[:40]), case)
+                return
+            continue
         check_message(res, dict(case, kind='memory'), where + ' across a release request', items[0][0],
                       items[0][1], name, command, data, ctx)
 
